@@ -172,6 +172,8 @@ def run(facts, res):
     callers = sorted({s.body.path for s in cg.callers_of(ua)})
     res.instance("L2", "callers of unvalidated_add: %s" % callers, None)
     appliers = [p for p in callers if p != "revisiontree::RevisionTree::add"]
+    if R.body("applier") is not None:
+        appliers = [R.path("applier")]       # the function applying a whole block (possibly through a per-record helper)
     addb = facts.body("revisiontree::RevisionTree::add")
     if addb is not None:
         cfg = cfg_of(addb)
